@@ -268,5 +268,8 @@ def relations(rng, tier, rpt):
         q1, q2 = pth.AddElem(j2).ToStr(), pth.AddElem(j3).ToStr()
         if pth.ToStr() != p_before or q1 != j1 + j2 or q2 != j1 + j3:
             rep("SubstratePath.AddElem changes its receiver", j1, str((pth.ToStr(), q1, q2)), str((p_before, j1 + j2, j1 + j3)))
+    from harness.props.accessors_common import bip32_utils_clauses
+    for what, inp, got, want in bip32_utils_clauses(rng):
+        rep(what, inp, got, want)
     rpt.extra["impl_relation_checks"] = n
     return bad[:5]
